@@ -104,4 +104,29 @@ def unmarshal (c : Curve) (m : Bytes) : Unm :=
     if x = 0 ∧ y = 0 then .ok .inf
     else if isOnCurve c (.aff x y) then .ok (.aff x y) else .malformed (.aff x y)
 
+/-! ### `groupsig.Signature` around a `bn256.G1` (`sig.go`) — `none` is the nil point pointer -/
+
+/-- `Signature.Deserialize` / `DeserializeSign`: empty input is an error before the point is touched;
+    otherwise `G1.Unmarshal` with its error DROPPED — fewer than 64 bytes leave the pointer nil, an
+    off-curve pair stays in the value. -/
+def deserializeSign (c : Curve) (b : Bytes) : Option Point :=
+  if b.length = 0 then none
+  else match unmarshal c b with
+    | .ok p => some p
+    | .malformed p => some p
+    | .short => none
+
+/-- `Signature.Serialize`: empty for the nil point, else `Marshal`. -/
+def serializeSign : Option Point → Bytes
+  | none => []
+  | some p => marshal p
+
+/-- `Signature.IsValid`: non-empty serialisation and on the curve (infinity counts as on the curve). -/
+def sigIsValid (c : Curve) : Option Point → Bool
+  | none => false
+  | some p => isOnCurve c p
+
+/-- `Sign(sec, msg)` given `H(msg)`: `ScalarMult(H(m), sec)` with the unreduced key. -/
+def sign (c : Curve) (hm : Point) (sk : Nat) : Point := mul c hm sk
+
 end Rangers.Model.G1
